@@ -173,20 +173,25 @@ Definition exec (c : sys) (f : fs) : ret * fs :=
                          else (ROk, update f l (File (d ++ zeros (n - lenN d))))
       | _ => (RErr ENOENT, f)
       end
+  (* the next three act through the writer's open descriptor (mapping, ftruncate, write): when the name is gone — the
+     cache was cleared under the writer — they still succeed, on an inode no path reaches: nothing changes in the tree *)
   | MmapStore l off s =>
       match lookup f l with
       | Some (File d) => if off + lenN s <=? lenN d then (ROk, update f l (File (store_at d off s)))
                          else (RErr EINVAL, f)
+      | None => (ROk, f)
       | _ => (RErr ENOENT, f)
       end
   | Truncate l n =>
       match lookup f l with
       | Some (File d) => (ROk, update f l (File (takeN n d)))
+      | None => (ROk, f)
       | _ => (RErr ENOENT, f)
       end
   | WriteAppend l s =>
       match lookup f l with
       | Some (File d) => (RNum (lenN s), update f l (File (d ++ s)))
+      | None => (RNum (lenN s), f)
       | _ => (RErr ENOENT, f)
       end
   | Rename src dst =>
